@@ -734,3 +734,265 @@ Proof.
   - rewrite (blen_0_nil _ extra) by lia. cbn [app].
     rewrite par_auth_ser by assumption. reflexivity.
 Qed.
+
+(* ==== what the decoder's output satisfies (the encoder's guards) ========================= *)
+Ltac step H :=
+  match type of H with
+  | match ?e with Some _ => _ | None => None end = Some _ =>
+      let E := fresh "E" in destruct e as [[? ?]|] eqn:E; [cbv iota beta in H | discriminate H]
+  | (if ?c then _ else _) = Some _ =>
+      let C := fresh "C" in destruct c eqn:C; try discriminate H
+  end.
+
+Lemma rd_ok : forall k b x r, rd k b = Some (x, r) -> bytes_ok b ->
+  bytes_ok x /\ bytes_ok r /\ blen x = k.
+Proof.
+  intros k b x r H Hb. destruct (rd_inv _ _ _ _ H) as (E & L & _). subst b.
+  apply bytes_ok_app in Hb. destruct Hb. repeat split; assumption.
+Qed.
+
+Lemma rd_u16_ok : forall b v r, rd_u16 b = Some (v, r) -> bytes_ok b -> v <= 65535 /\ bytes_ok r.
+Proof.
+  intros b v r H Hb. unfold rd_u16 in H. step H. step H. inversion H; subst.
+  destruct (rd_ok _ _ _ _ E Hb) as (_ & Hr & _). rewrite max_int_val in C. split; [lia | exact Hr].
+Qed.
+
+Lemma rd_fix_ok : forall k b x r,
+  (let? (x, r) := rd k b in Some (be_dec x, r)) = Some (x, r) -> bytes_ok b -> bytes_ok r.
+Proof.
+  intros k b x r H Hb. step H. inversion H; subst. destruct (rd_ok _ _ _ _ E Hb) as (_ & Hr & _). exact Hr.
+Qed.
+
+Lemma rd_bytes_ok : forall b x r, rd_bytes b = Some (x, r) -> bytes_ok b -> blen x <= 65535 /\ bytes_ok r.
+Proof.
+  intros b x r H Hb. unfold rd_bytes in H. step H. destruct (rd_u16_ok _ _ _ E Hb) as [Hl Hr].
+  step H.
+  - inversion H; subst. split; [cbn; lia | exact Hr].
+  - destruct (rd_ok _ _ _ _ H Hr) as (_ & Hr' & L). split; [lia | exact Hr'].
+Qed.
+
+Lemma int_size_le : forall v l, v < 256 ^ l -> int_size v <= l.
+Proof.
+  intros v l H. unfold int_size.
+  assert (S : N.size v <= 8 * l).
+  { destruct (N.eq_dec v 0) as [->|Hv]; [cbn; lia|].
+    pose proof (N.size_le v) as S1. rewrite N.succ_double_spec in S1.
+    change 256 with (2 ^ 8) in H. rewrite <- N.pow_mul_r in H.
+    assert (L : 2 ^ N.size v < 2 ^ (8 * l + 1)) by (rewrite N.pow_add_r; cbn [N.pow]; lia).
+    apply N.pow_lt_mono_r_iff in L; lia. }
+  pose proof (N.div_mod (N.size v + 7) 8 ltac:(discriminate)).
+  pose proof (N.mod_lt (N.size v + 7) 8 ltac:(discriminate)). lia.
+Qed.
+
+Lemma rd_integer_ok : forall b v r, rd_integer b = Some (v, r) -> bytes_ok b ->
+  ok_integer v = true /\ bytes_ok r.
+Proof.
+  intros b v r H Hb. unfold rd_integer in H. step H. destruct (rd_u16_ok _ _ _ E Hb) as [Hl Hr].
+  step H. inversion H; subst. destruct (rd_ok _ _ _ _ E0 Hr) as (Hx & Hr' & L).
+  split; [|exact Hr']. unfold ok_integer. rewrite max_int_val.
+  pose proof (be_dec_bound _ Hx) as B. unfold blen in L. rewrite L in B.
+  pose proof (int_size_le _ _ B). lia.
+Qed.
+
+Lemma rd_magic_ok : forall b h r, rd_magic b = Some (h, r) -> bytes_ok b -> bytes_ok r.
+Proof.
+  intros b h r H Hb. unfold rd_magic in H. step H. destruct (rd_ok _ _ _ _ E Hb) as (_ & Hr & _).
+  step H; [inversion H; subst; exact Hr|]. step H. inversion H; subst; exact Hr.
+Qed.
+
+Section InvCombinators.
+  Context {A : Type} (p : bytes -> option (A * bytes)) (P : A -> Prop).
+  Hypothesis p_ok : forall b x r, p b = Some (x, r) -> bytes_ok b -> P x /\ bytes_ok r.
+
+  Lemma par_list_ok : forall n b xs r, par_list p n b = Some (xs, r) -> bytes_ok b ->
+    Forall P xs /\ bytes_ok r /\ length xs = n.
+  Proof.
+    induction n as [|n IH]; intros b xs r H Hb; cbn [par_list] in H.
+    - inversion H; subst. repeat split; [constructor | exact Hb].
+    - step H. step H. inversion H; subst. destruct (p_ok _ _ _ E Hb) as [Px Hr].
+      destruct (IH _ _ _ E0 Hr) as (F & Hr' & L). repeat split; [constructor; assumption | exact Hr' | cbn; lia].
+  Qed.
+
+  Lemma par_opt_ok : forall b o r, par_opt p b = Some (o, r) -> bytes_ok b ->
+    match o with Some a => P a | None => True end /\ bytes_ok r.
+  Proof.
+    intros b o r H Hb. unfold par_opt in H. step H. pose proof (rd_magic_ok _ _ _ E Hb) as Hr.
+    destruct b0.
+    - step H. inversion H; subst. apply (p_ok _ _ _ E0 Hr).
+    - inversion H; subst. split; [exact I | exact Hr].
+  Qed.
+End InvCombinators.
+
+Ltac discharge_leb :=
+  repeat match goal with
+  | |- context [?a <=? ?b] =>
+      let X := fresh "X" in assert (X : (a <=? b) = true) by (unfold blen in *; lia); rewrite X; clear X
+  | |- context [?a <? ?b] =>
+      let X := fresh "X" in assert (X : (a <? b) = true) by (unfold blen in *; lia); rewrite X; clear X
+  end.
+
+Lemma ok_len_le : forall x, blen x <= 65535 -> ok_len x = true.
+Proof. intros x H. unfold ok_len. rewrite max_int_val. lia. Qed.
+
+Lemma par_deposit_ok : forall b d r, par_deposit b = Some (d, r) -> bytes_ok b ->
+  ok_deposit d = true /\ bytes_ok r.
+Proof.
+  intros b d r H Hb. unfold par_deposit in H.
+  step H. pose proof (rd_fix_ok _ _ _ _ E Hb) as H1.
+  step H. destruct (rd_bytes_ok _ _ _ E0 H1) as [L2 H2].
+  step H. destruct (rd_bytes_ok _ _ _ E1 H2) as [L3 H3].
+  step H. pose proof (rd_fix_ok _ _ _ _ E2 H3) as H4.
+  step H. destruct (rd_integer_ok _ _ _ E3 H4) as [L5 H5].
+  inversion H; subst. split; [|exact H5]. unfold ok_deposit. cbn [d_asset_key d_tx d_amount].
+  rewrite (ok_len_le _ L2), (ok_len_le _ L3), L5. reflexivity.
+Qed.
+
+Lemma par_mint_ok : forall b m r, par_mint b = Some (m, r) -> bytes_ok b ->
+  ok_mint m = true /\ bytes_ok r.
+Proof.
+  intros b m r H Hb. unfold par_mint in H.
+  step H. destruct (rd_bytes_ok _ _ _ E Hb) as [L1 H1].
+  step H. pose proof (rd_fix_ok _ _ _ _ E0 H1) as H2.
+  step H. destruct (rd_integer_ok _ _ _ E1 H2) as [L3 H3].
+  inversion H; subst. split; [|exact H3]. unfold ok_mint. cbn [m_group m_amount].
+  rewrite (ok_len_le _ L1), L3. reflexivity.
+Qed.
+
+Lemma par_input_ok : forall b i r, par_input b = Some (i, r) -> bytes_ok b ->
+  ok_input i = true /\ bytes_ok r.
+Proof.
+  intros b i r H Hb. unfold par_input in H.
+  step H. pose proof (rd_fix_ok _ _ _ _ E Hb) as H1.
+  step H. destruct (rd_u16_ok _ _ _ E0 H1) as [L2 H2].
+  step H.
+  step H. destruct (rd_bytes_ok _ _ _ E1 H2) as [L3 H3].
+  step H. destruct (par_opt_ok par_deposit (fun d => ok_deposit d = true) par_deposit_ok _ _ _ E2 H3) as [L4 H4].
+  step H. destruct (par_opt_ok par_mint (fun m => ok_mint m = true) par_mint_ok _ _ _ E3 H4) as [L5 H5].
+  inversion H; subst. split; [|exact H5]. unfold ok_input. cbn [i_index i_genesis i_deposit i_mint].
+  rewrite (ok_len_le _ L3). rewrite index_limit_val in *.
+  discharge_leb.
+  destruct o; destruct o0; cbn [ok_opt]; try rewrite L4; try rewrite L5; reflexivity.
+Qed.
+
+Lemma par_withdrawal_ok : forall b w r, par_withdrawal b = Some (w, r) -> bytes_ok b ->
+  ok_withdrawal w = true /\ bytes_ok r.
+Proof.
+  intros b w r H Hb. unfold par_withdrawal in H.
+  step H. destruct (rd_bytes_ok _ _ _ E Hb) as [L1 H1].
+  step H. destruct (rd_bytes_ok _ _ _ E0 H1) as [L2 H2].
+  inversion H; subst. split; [|exact H2]. unfold ok_withdrawal. cbn [w_address w_tag].
+  rewrite (ok_len_le _ L1), (ok_len_le _ L2). reflexivity.
+Qed.
+
+Lemma rd_h32_ok : forall b x r, rd_h32 b = Some (x, r) -> bytes_ok b -> True /\ bytes_ok r.
+Proof. intros b x r H Hb. split; [exact I | exact (rd_fix_ok _ _ _ _ H Hb)]. Qed.
+
+Lemma par_output_ok : forall lim b o r, lim <= 65535 -> par_output lim b = Some (o, r) -> bytes_ok b ->
+  ok_output o = true /\ bytes_ok r.
+Proof.
+  intros lim b o r Hlim H Hb. unfold par_output in H.
+  step H. destruct (rd_ok _ _ _ _ E Hb) as (_ & H1 & _).
+  step H.
+  step H. destruct (rd_integer_ok _ _ _ E0 H1) as [L2 H2].
+  step H. destruct (rd_u16_ok _ _ _ E1 H2) as [L3 H3].
+  step H.
+  step H. destruct (par_list_ok rd_h32 (fun _ => True) rd_h32_ok _ _ _ _ E2 H3) as (_ & H4 & L4).
+  step H. pose proof (rd_fix_ok _ _ _ _ E3 H4) as H5.
+  step H. destruct (rd_bytes_ok _ _ _ E4 H5) as [L6 H6].
+  step H. destruct (par_opt_ok par_withdrawal (fun w => ok_withdrawal w = true) par_withdrawal_ok _ _ _ E5 H6) as [L7 H7].
+  inversion H; subst. split; [|exact H7]. unfold ok_output. cbn [o_amount o_keys o_script o_withdrawal].
+  rewrite L2, (ok_len_le _ L6). rewrite max_int_val.
+  discharge_leb.
+  destruct o0; cbn [ok_opt]; try rewrite L7; reflexivity.
+Qed.
+
+Lemma par_sig_entry_ok : forall b e r, par_sig_entry b = Some (e, r) -> bytes_ok b -> True /\ bytes_ok r.
+Proof.
+  intros b e r H Hb. unfold par_sig_entry in H.
+  step H. destruct (rd_u16_ok _ _ _ E Hb) as [_ H1].
+  step H. pose proof (rd_fix_ok _ _ _ _ E0 H1) as H2. inversion H; subst. split; [exact I | exact H2].
+Qed.
+
+Lemma par_sigs_ok : forall b m r, par_sigs b = Some (m, r) -> bytes_ok b -> ok_sigs m = true /\ bytes_ok r.
+Proof.
+  intros b m r H Hb. unfold par_sigs in H.
+  step H. destruct (rd_u16_ok _ _ _ E Hb) as [L1 H1].
+  step H. destruct (par_list_ok par_sig_entry (fun _ => True) par_sig_entry_ok _ _ _ _ E0 H1) as (_ & H2 & L2).
+  step H. inversion H; subst. split; [|exact H2]. unfold ok_sigs, blen. rewrite max_int_val. lia.
+Qed.
+
+Lemma rd_u16_ok' : forall b v r, rd_u16 b = Some (v, r) -> bytes_ok b -> True /\ bytes_ok r.
+Proof. intros b v r H Hb. destruct (rd_u16_ok _ _ _ H Hb). split; [exact I | assumption]. Qed.
+
+Lemma par_agg_ok : forall b js r, par_agg b = Some (js, r) -> bytes_ok b ->
+  validate_signers (snd js) = true /\ bytes_ok r.
+Proof.
+  intros b js r H Hb. unfold par_agg in H.
+  step H. pose proof (rd_fix_ok _ _ _ _ E Hb) as H1.
+  step H. destruct (rd_ok _ _ _ _ E0 H1) as (_ & H2 & _).
+  step H. step H. inversion H; subst. split; [exact C|]. clear H C.
+  step E1.
+  - step E1. destruct (rd_u16_ok _ _ _ E2 H2) as [_ H3].
+    destruct (par_list_ok rd_u16 (fun _ => True) rd_u16_ok' _ _ _ _ E1 H3) as (_ & H4 & _). exact H4.
+  - step E1. step E1. inversion E1; subst. destruct (rd_bytes_ok _ _ _ E2 H2) as [_ H3]. exact H3.
+Qed.
+
+Lemma par_auth_ok : forall b a r, par_auth b = Some (a, r) -> bytes_ok b -> ok_auth a = true /\ bytes_ok r.
+Proof.
+  intros b a r H Hb. unfold par_auth in H.
+  step H. destruct (rd_u16_ok _ _ _ E Hb) as [L1 H1].
+  step H.
+  - step H. destruct (rd_u16_ok _ _ _ E0 H1) as [_ H2]. step H. step H.
+    destruct (par_agg_ok _ _ _ E1 H2) as [V H3]. inversion H; subst. split; [|exact H3].
+    cbn [ok_auth]. destruct (snd p); [reflexivity | exact V].
+  - rewrite max_int_val in C. step H.
+    + step H. destruct (par_list_ok par_sigs (fun m => ok_sigs m = true) par_sigs_ok _ _ _ _ E0 H1) as (F & H2 & L2).
+      inversion H; subst. split; [|exact H2]. cbn [ok_auth]. rewrite max_int_val.
+      rewrite slice_limit_val in L2. discharge_leb.
+      apply forallb_forall. intros m Hm. rewrite Forall_forall in F. apply F. exact Hm.
+    + inversion H; subst. split; [reflexivity | exact H1].
+Qed.
+
+Lemma Forall_forallb : forall A (f : A -> bool) l, Forall (fun x => f x = true) l -> forallb f l = true.
+Proof. intros A f l H. apply forallb_forall. rewrite Forall_forall in H. exact H. Qed.
+
+Lemma dec_tx_lim_ok : forall lim b t, lim <= 65535 -> dec_tx_lim lim b = Some t -> bytes_ok b ->
+  t_version t = tx_version /\ ok_tx t = true.
+Proof.
+  intros lim b t Hlim H Hb. unfold dec_tx_lim in H.
+  step H. destruct (rd_ok _ _ _ _ E Hb) as (_ & H1 & _).
+  step H.
+  step H. pose proof (rd_fix_ok _ _ _ _ E0 H1) as H2.
+  step H. destruct (rd_u16_ok _ _ _ E1 H2) as [L3 H3].
+  step H.
+  step H. destruct (par_list_ok par_input (fun i => ok_input i = true) par_input_ok _ _ _ _ E2 H3) as (F4 & H4 & L4).
+  step H. destruct (rd_u16_ok _ _ _ E3 H4) as [L5 H5].
+  step H.
+  step H. destruct (par_list_ok (par_output lim) (fun o => ok_output o = true)
+                      (fun b x r => par_output_ok lim b x r Hlim) _ _ _ _ E4 H5) as (F6 & H6 & L6).
+  step H. destruct (rd_u16_ok _ _ _ E5 H6) as [L7 H7].
+  step H.
+  step H. destruct (par_list_ok rd_h32 (fun _ => True) rd_h32_ok _ _ _ _ E6 H7) as (_ & H8 & L8).
+  step H. pose proof (rd_fix_ok _ _ _ _ E7 H8) as H9.
+  step H.
+  step H.
+  match goal with
+  | EE : (if 0 <? ?n then rd ?n ?bb else Some ([], ?bb)) = Some (?x, ?rr) |- _ =>
+      assert (X : blen x <= 4194304 /\ bytes_ok rr);
+      [ rewrite extra_cap_val in *; destruct (0 <? n) eqn:Z;
+        [ destruct (rd_ok _ _ _ _ EE H9) as (_ & Hr & L); split; [lia | exact Hr]
+        | inversion EE; subst; split; [cbn; lia | exact H9] ] | ]
+  end.
+  destruct X as [L10 H10].
+  step H. destruct (par_auth_ok _ _ _ E9 H10) as [L11 H11].
+  match type of H with match ?bb with [] => _ | _ :: _ => _ end = _ => destruct bb; [|discriminate H] end.
+  inversion H; subst. clear H.
+  cbn [t_version]. split.
+  - unfold check_tx_version in *.
+    match goal with |- context [bytes_eqb ?x ?y] => destruct (bytes_eqb x y) end; [reflexivity|].
+    rewrite tx_version_val in C. cbn in C. discriminate.
+  - unfold ok_tx. cbn [t_inputs t_outputs t_refs t_extra t_auth].
+    rewrite slice_limit_val, max_int_val, extra_cap_val in *.
+    rewrite (Forall_forallb _ _ _ F4), (Forall_forallb _ _ _ F6), L11.
+    discharge_leb. reflexivity.
+Qed.
